@@ -28,6 +28,11 @@ type input struct {
 	// a session (see below); Deps is unused then
 	Steps    []event `json:"steps,omitempty"`
 	ViaState bool    `json:"via_state,omitempty"`
+	// ext.go: "kinded" (Kops) or "life" (Deps are declared, Root is queued, Plan is how each build step ends)
+	Mode string   `json:"mode,omitempty"`
+	Kops []kop    `json:"kops,omitempty"`
+	Root int      `json:"root,omitempty"`
+	Plan []string `json:"plan,omitempty"`
 }
 
 type observed struct {
@@ -135,9 +140,28 @@ func oracle(in input, o observed) (string, string) {
 		for i, v := range o.Cycle {
 			w := o.Cycle[(i+1)%len(o.Cycle)]
 			if !edge(in.Deps, v, w) {
-				return "reported-cycle-not-a-cycle", fmt.Sprintf("reported cycle %v: %s does not depend on %s",
+				class := "reported-cycle-not-a-cycle"
+				// a narrower class when hidden (_name#tag) targets lie on cycles of the graph and none is listed
+				listed, onSome := false, false
+				for _, x := range o.Cycle {
+					listed = listed || isHiddenLabel(in.Labels[x])
+				}
+				for x, on := range onCycle(in.Deps) {
+					onSome = onSome || (on && isHiddenLabel(in.Labels[x]))
+				}
+				if onSome && !listed {
+					class += "-hidden-members-left-out"
+				}
+				return class, fmt.Sprintf("reported cycle %v: %s does not depend on %s",
 					o.Cycle, in.Labels[v], in.Labels[w])
 			}
+		}
+		seen := map[int]bool{}
+		for _, v := range o.Cycle {
+			if seen[v] {
+				return "reported-cycle-repeats-a-target", fmt.Sprintf("reported cycle %v lists %s twice", o.Cycle, in.Labels[v])
+			}
+			seen[v] = true
 		}
 	}
 	return "", ""
@@ -733,7 +757,14 @@ func main() {
 			"declared before the first and resolved before the second Check) and on 3 targets (self-reference-free) under every label assignment; " +
 			"random sessions reaching a random graph of <= 9 targets step by step (targets added over time, dependencies declared before being resolved, " +
 			"never resolved, or naming labels that never become targets, 1-12 Checks in between, sometimes Stop, 1 in 16 through the detector of a real BuildState). " +
-			"distinct = distinct (labels, dependency lists) or (labels, steps); non-trivial = at least 2 targets and 1 resolved dependency (sessions: and at least 2 Checks or 1 unresolved declared dependency)")
+			"KINDED: dependencies declared through the real AddMaybeExportedDependency / AddDatum as srcs-only, internal, run-time, data or plain (also re-declared with other flags, " +
+			"resolved twice, resolved before being declared): rings of 2-3 targets under a root with every assignment of the five kinds to the ring's edges, and random graphs of <= 8 targets; " +
+			"observed Dependencies(), BuildDependencies() and Check. HIDDEN: every graph on 3 targets with every non-empty set of hidden (_name#tag) labels, random graphs with hidden labels. " +
+			"LIFE: a real BuildState with KeepGoing, <= 7 targets declaring their dependencies, one target given to QueueTarget, the real queueResolvedTarget / queueTargetAsync / resolveDependencies; " +
+			"the harness plays the build step only (each target's build ends Built/Cached/Unchanged/Reused or Failed by plan); when the states the waiting protocol leads to are reached, " +
+			"the detector of that BuildState runs; observed State() of every target, Dependencies() and Check. " +
+			"distinct = distinct (labels, dependency lists) or (labels, steps) or (labels, declarations) or (labels, dependencies, root, plan); non-trivial = at least 2 targets and 1 resolved dependency " +
+			"(sessions: and at least 2 Checks or 1 unresolved declared dependency; kinded: Dependencies() differs from BuildDependencies(); life: at least 2 resolved dependencies)")
 
 		do := func(in input, kind string, withCase bool) {
 			o := run(in)
@@ -813,8 +844,78 @@ func main() {
 			c.Hist("session_targets", bucket(nTargets))
 		}
 
+		doKinded := func(in input, kind string, withCase bool) {
+			o := runKinded(in)
+			js := kindedJSON(in, o)
+			key := fmt.Sprint("kinded", in.Labels, in.Kops)
+			nontrivial := len(in.Labels) >= 2 && edges(o.Edges) >= 1 && fmt.Sprint(o.All) != fmt.Sprint(o.Build)
+			if withCase {
+				c.Case(coqKinded(in, o), js, key, nontrivial)
+			} else {
+				c.Eval(js, key, nontrivial)
+			}
+			c.Oracle()
+			if class, what := kindedOracle(in, o); class != "" {
+				c.Fail(class, what, js)
+			}
+			c.Hist("shape", "kinded:"+kind)
+			switch {
+			case !hasCycle(o.Edges):
+				c.Hist("kinded_graph", "acyclic")
+			case hasCycle(o.Build):
+				c.Hist("kinded_graph", "cycle-of-build-dependencies")
+			default:
+				c.Hist("kinded_graph", "every-cycle-through-a-non-build-edge")
+			}
+		}
+
+		doLife := func(in input, kind string, withCase bool) {
+			o := runLife(in)
+			js := lifeJSON(in, o)
+			key := fmt.Sprint("life", in.Labels, in.Deps, in.Root, in.Plan)
+			failedOnCycle, anyCycle := false, false
+			for v, on := range onCycle(o.Deps) {
+				anyCycle = anyCycle || on
+				failedOnCycle = failedOnCycle || (on && stateIndex(o.States[v]) >= stateIndex("DependencyFailed"))
+			}
+			if withCase {
+				c.Case(coqLife(in, o), js, key, edges(o.Deps) >= 2)
+			} else {
+				c.Eval(js, key, edges(o.Deps) >= 2)
+			}
+			c.Oracle()
+			if class, what := lifeOracle(in, o); class != "" {
+				c.Fail(class, what, js)
+			}
+			c.Hist("shape", "life:"+kind)
+			switch {
+			case failedOnCycle:
+				c.Hist("life_graph", "cycle-with-a-(Dependency)Failed-member")
+			case anyCycle:
+				c.Hist("life_graph", "cycle-all-members-waiting")
+			default:
+				c.Hist("life_graph", "acyclic")
+			}
+			if !o.Settled {
+				c.Hist("life_settled", "expected-states-not-reached")
+			} else {
+				c.Hist("life_settled", "yes")
+			}
+			for _, st := range o.States {
+				c.Hist("life_state", st)
+			}
+		}
+
 		var rp input
 		if c.ReadReplay(&rp) {
+			if rp.Mode == "kinded" {
+				doKinded(rp, "replay", true)
+				return
+			}
+			if rp.Mode == "life" {
+				doLife(rp, "replay", true)
+				return
+			}
 			if len(rp.Steps) > 0 {
 				doSession(rp, "replay", true)
 				return
@@ -901,6 +1002,78 @@ func main() {
 			kind, nlabels, steps := randomSession(r)
 			in := input{Labels: permuted(labelPool(nlabels), randPerm(r, nlabels)), Steps: steps, ViaState: r.Chance(1, 16)}
 			doSession(in, kind, true)
+		}
+
+		// --- 1d. edges of every kind: rings of 2 and 3 targets (below a root that reaches them through a plain
+		// dependency) with every assignment of plain / source / internal / runtime / data to the ring's edges
+		for m := 2; m <= 3; m++ {
+			total := 1
+			for i := 0; i < m; i++ {
+				total *= len(edgeKinds)
+			}
+			for code := 0; code < total; code++ {
+				r := c.Rng.Fork()
+				n := m + 1
+				ops, res := []kop{{A: m, Op: "declare", B: 0}}, []kop{{A: m, Op: "resolve", B: 0}}
+				x := code
+				for i := 0; i < m; i++ {
+					ops = append(ops, declOps(i, (i+1)%m, edgeKinds[x%len(edgeKinds)])...)
+					res = append(res, kop{A: i, Op: "resolve", B: (i + 1) % m})
+					x /= len(edgeKinds)
+				}
+				in := input{Mode: "kinded", Labels: permuted(labelPool(n), randPerm(r, n)), Kops: append(ops, res...)}
+				doKinded(in, fmt.Sprintf("ring-%d-all-kinds", m), true)
+			}
+		}
+		c.Note("exhaustive: rings of 2 and 3 targets under a root, every assignment of the five kinds of declaration (deps, srcs, internal, run-time, data) to the ring's edges")
+		nk := c.Scale(500, 12000)
+		for i := 0; i < nk; i++ {
+			r := c.Rng.Fork()
+			shape, n, ops := randomKinded(r)
+			in := input{Mode: "kinded", Labels: permuted(labelPool(n), randPerm(r, n)), Kops: ops}
+			doKinded(in, shape, true)
+		}
+
+		// --- 1e. hidden targets: every graph on 3 targets with every choice of which labels are hidden
+		// (oracle only; one in eight also through the model), random graphs with hidden labels
+		{
+			n := 3
+			for mask := uint64(0); mask < 1<<uint(n*n); mask++ {
+				deps := graphFromMask(n, mask)
+				for hm := uint64(1); hm < 1<<uint(n); hm++ {
+					r := c.Rng.Fork()
+					do(input{Labels: permuted(hiddenPool(n, hm), randPerm(r, n)), Deps: deps}, "hidden-exhaustive-3", (mask+hm)%8 == 0)
+				}
+			}
+			c.Note("exhaustive: every directed graph on 3 targets with every non-empty set of hidden (_name#tag) labels, one random order each")
+			nh := c.Scale(400, 10000)
+			for i := 0; i < nh; i++ {
+				r := c.Rng.Fork()
+				kind, deps := randomGraph(r)
+				n := len(deps)
+				hm := r.U64() & r.U64() // about a quarter of the labels
+				if r.Bool() {
+					hm = r.U64()
+				}
+				do(input{Labels: permuted(hiddenPool(n, hm), randPerm(r, n)), Deps: deps}, "hidden:"+kind, true)
+			}
+		}
+
+		// --- 1f. target states through the real queueing code (BuildState with KeepGoing)
+		{
+			// the demo shape first: a -> {a0 (fails), b}, b -> a, under every assignment of labels
+			lib.Perms(3, func(p []int) {
+				in := input{Mode: "life", Labels: permuted(labelPool(3), p), Deps: [][]int{{1, 2}, {}, {0}}, Root: 0, Plan: []string{"Built", "Failed", "Built"}}
+				doLife(in, "cycle-member-with-failing-dependency", true)
+			})
+			nl := c.Scale(220, 4000)
+			for i := 0; i < nl; i++ {
+				r := c.Rng.Fork()
+				shape, deps, root, plan := randomLife(r)
+				n := len(deps)
+				in := input{Mode: "life", Labels: permuted(labelPool(n), randPerm(r, n)), Deps: deps, Root: root, Plan: plan}
+				doLife(in, shape, true)
+			}
 		}
 
 		// --- 2. random graphs up to 12 targets, random order
